@@ -312,6 +312,16 @@ func SkipRows(fn *ssa.Function) []string {
 			}
 			return phis + "…"
 		}
+		// where a loop goes when it is exhausted (a `return` after the loop that disappears lets the code behind
+		// the enclosing `if` run for the elements the loop was the whole treatment of)
+		for _, l := range loops {
+			for k, sx := range l.Header.Succs {
+				if !l.Blocks[sx] {
+					_ = k
+					out = append(out, "loop exit: ["+summary(l.Header, sx)+"]")
+				}
+			}
+		}
 		for _, b := range fn.Blocks {
 			ifi, ok := b.Instrs[len(b.Instrs)-1].(*ssa.If)
 			if !ok || isHdr[b] {
